@@ -114,6 +114,12 @@ func wodCheck(e *Context, addLine IntType, pool IntType, points IntType, thresho
 
 // RollWoD 返回: 成功数，总骰数，轮数，细节
 func RollWoD(src *rand.PCGSource, addLine IntType, pool IntType, points IntType, threshold IntType, isGE bool, mode int) (IntType, IntType, IntType, string) {
+	return rollWoDWithBudget(src, addLine, pool, points, threshold, isGE, mode, nil)
+}
+
+// rollWoDWithBudget 与 RollWoD 相同，但每一轮掷骰前会调用 charge(本轮骰数)，
+// charge 返回 true 表示算力耗尽，此时立即停止(加骰可以无限持续，必须计入算力)
+func rollWoDWithBudget(src *rand.PCGSource, addLine IntType, pool IntType, points IntType, threshold IntType, isGE bool, mode int, charge func(count IntType) bool) (IntType, IntType, IntType, string) {
 	var details []string
 	addTimes := 1
 
@@ -122,6 +128,9 @@ func RollWoD(src *rand.PCGSource, addLine IntType, pool IntType, points IntType,
 	successCount := IntType(0)
 
 	for times := 0; times < addTimes; times++ {
+		if charge != nil && charge(pool) {
+			break
+		}
 		addCount := IntType(0)
 		var detailsOne []string
 
@@ -214,6 +223,12 @@ func doubleCrossCheck(ctx *Context, addLine, pool, points IntType) bool {
 }
 
 func RollDoubleCross(src *rand.PCGSource, addLine IntType, pool IntType, points IntType, mode int) (IntType, IntType, IntType, string) {
+	return rollDoubleCrossWithBudget(src, addLine, pool, points, mode, nil)
+}
+
+// rollDoubleCrossWithBudget 与 RollDoubleCross 相同，但每一轮掷骰前会调用 charge(本轮骰数)，
+// charge 返回 true 表示算力耗尽，此时立即停止
+func rollDoubleCrossWithBudget(src *rand.PCGSource, addLine IntType, pool IntType, points IntType, mode int, charge func(count IntType) bool) (IntType, IntType, IntType, string) {
 	var details []string
 	addTimes := 1
 
@@ -222,6 +237,9 @@ func RollDoubleCross(src *rand.PCGSource, addLine IntType, pool IntType, points 
 	resultDice := IntType(0)
 
 	for times := 0; times < addTimes; times++ {
+		if charge != nil && charge(pool) {
+			break
+		}
 		addCount := IntType(0)
 		detailsOne := []string{}
 		maxDice := IntType(0)
